@@ -237,7 +237,13 @@ func c10(p *P) {
 			// nothing deleted when there is no tombstone (or Has fails)
 			p.guarded("C10.R3", mcd, dels, callResult("tombstone present", "iface:Datastore.Has", `tombstoneKey`, 0, avFalse), errFails("tombstone lookup ok", "iface:Datastore.Has", `tombstoneKey`))
 			// loop skips the tombstone
-			p.guarded("C10.R3", mcd, loopDel, cmpRel("key ≠ tombstone", `datastore\.NewKey\(`, `tombstoneKey`, RelEQ))
+			// accepted idioms: NewKey(r.Key) == tombstoneKey, r.Key == tombstoneKey.String(), key.Equal(tombstoneKey)
+			skip := union(
+				cmpRel("key ≠ tombstone", `datastore\.NewKey\(`, `^certstore\.tombstoneKey$`, RelEQ),
+				cmpRel("key ≠ tombstone", `\.Key$`, `^github\.com/ipfs/go-datastore\.Key\.String\(certstore\.tombstoneKey\)$`, RelEQ),
+				callResult("key ≠ tombstone", "github.com/ipfs/go-datastore.Key.Equal", `tombstoneKey`, -1, avTrue))
+			skip.Name = "key ≠ tombstone"
+			p.guarded("C10.R3", mcd, loopDel, skip)
 			// tombstone deleted last: not in the loop, not followed by loop deletes, unreachable when a loop delete fails
 			for _, t := range tombDel {
 				r.Check(!inLoop(t.Instr), "C10.R3", "certstore.maybeContinueDelete: tombstone delete outside the loop", p.c.InstrPos(t.Instr), "not on a CFG cycle", "the tombstone is deleted inside the loop")
